@@ -216,14 +216,32 @@ type Listener struct {
 	once   sync.Once
 	// ClosedErr is returned by AcceptWithContext after Close (the library checks for its own sentinel).
 	ClosedErr error
+	errs      chan error
 }
 
 func NewListener(closedErr error) *Listener {
-	return &Listener{ch: make(chan net.Conn, 64), closed: make(chan struct{}), ClosedErr: closedErr}
+	return &Listener{ch: make(chan net.Conn, 64), closed: make(chan struct{}), ClosedErr: closedErr, errs: make(chan error, 64)}
+}
+
+// FailAccept makes one (the next) call of AcceptWithContext return err - a transient failure of the
+// accept system call (descriptor table full, connection aborted before it was accepted); the
+// listener itself stays open and connections handed over afterwards are accepted normally.
+func (l *Listener) FailAccept(err error) {
+	select {
+	case l.errs <- err:
+	case <-l.closed:
+	}
 }
 
 func (l *Listener) AcceptWithContext(ctx context.Context) (net.Conn, error) {
 	select {
+	case err := <-l.errs:
+		return nil, err
+	default:
+	}
+	select {
+	case err := <-l.errs:
+		return nil, err
 	case c := <-l.ch:
 		return c, nil
 	case <-l.closed:
